@@ -30,16 +30,24 @@ FewTags(M) == {<<>>} \cup (IF M = {} THEN {} ELSE {[t \in {"t1", "t2"} |-> IF t 
 SpaceFewTags(ns, blobsets) ==
   UNION {{[blobs |-> b, mans |-> mm, tags |-> tg] : b \in blobsets, mm \in ManMaps(FirstMans(n)), tg \in FewTags(FirstMans(n))} : n \in ns}
 
-\* every subject relation on up to 3 manifests, every set of blobs, every binding of two tags
-MCSmallAll == Space(0..3, SUBSET MCBlobs, {"t1", "t2"})
-\* every subject relation on up to 2 manifests, every set of blobs, every binding of two tags
-MCTiny == Space(0..2, SUBSET MCBlobs, {"t1", "t2"})
-\* every subject relation on 3 / 4 manifests (7^4 = 2401 of them), all blobs present or one missing, few tags
-MCSubjects3 == SpaceFewTags({3}, {MCBlobs, {"b1", "b2"}})
-MCSubjects4 == SpaceFewTags({4}, {MCBlobs, {"b1", "b2"}})
-\* what is exported to the harness
-MCExport == Space(0..3, {MCBlobs, {"b1", "b3"}}, {"t1", "t2"})
-MCExportQuick == Space(0..2, {MCBlobs, {"b1", "b3"}}, {"t1", "t2"}) \cup SpaceFewTags({3}, {MCBlobs})
+\* The spaces (TLC evaluates every zero-arity definition when it starts: the configuration selects one).
+CONSTANT SpaceSel
+MCContents0 ==
+  CASE SpaceSel = "tiny" ->      \* every subject relation on up to 2 manifests, every set of blobs, every binding of two tags
+         Space(0..2, SUBSET MCBlobs, {"t1", "t2"})
+    [] SpaceSel = "live" ->      \* small enough for TLC's liveness checker (one initial state per content)
+         Space(0..2, {MCBlobs, {"b1"}}, {"t1"})
+    [] SpaceSel = "all3" ->      \* every subject relation on up to 3 manifests, every set of blobs, every binding of two tags
+         Space(0..3, SUBSET MCBlobs, {"t1", "t2"})
+    [] SpaceSel = "subj3" ->     \* every subject relation on 3 manifests, all blobs present or one missing, few tags
+         SpaceFewTags({3}, {MCBlobs, {"b1", "b2"}})
+    [] SpaceSel = "subj4" ->     \* every subject relation on 4 manifests (7^4 = 2401), all blobs present or one missing, few tags
+         SpaceFewTags({4}, {MCBlobs, {"b1", "b2"}})
+    [] SpaceSel = "gen" ->       \* what is exported to the harness
+         Space(0..3, {MCBlobs, {"b1", "b3"}}, {"t1", "t2"})
+    [] SpaceSel = "genquick" ->
+         Space(0..2, {MCBlobs, {"b1", "b3"}}, {"t1", "t2"}) \cup SpaceFewTags({3}, {MCBlobs})
+MCContents == MCContents0
 
 \* ---- the catalogue: blobs, and one manifest content per subject chain without repetition
 RECURSIVE ChainsOver(_)
